@@ -1029,6 +1029,62 @@ def reprocess_condition(ctx):
         raise AnalysisError("C01.18 matched %d conditional hand-backs after an implied end tag (expected >= 3)" % n)
 
 
+# ---------------------------------------------------------------------------- C01.19 "pop until an X element" means an HTML X element
+def pop_until_html_element(ctx):
+    """The standard's "pop elements until a tr / caption / table ... element has been popped" and "clear the stack back to a
+    ... context" name *HTML* elements.  In the insertion modes in which the current node can be a foreign element (its start
+    tag was handled by the in-body rules while a table mode was current, or the token arrived through an HTML integration
+    point), a loop that pops while only the *name* of the current node differs stops at a foreign element of that name
+    (<table><svg><html><desc><tr> builds the row inside the svg `html` element)."""
+    from .c03 import model as _m
+    r = ctx.r
+    pm = _m(ctx)
+    inbody = pm.phases["inBody"]
+    inserters = {m.fq for n, m in inbody.methods.items() if n in ("startTagSvg", "startTagMath")}
+    foreign_phases = set()
+    for key, cls in pm.phases.items():
+        h, how = pm.handler(cls, "StartTag", "svg")
+        if h is None:
+            continue
+        nodes, edges, sites = pm.build_graph([(h, "svg")])
+        if {f.fq for f, n in nodes.values()} & inserters:
+            foreign_phases.add(key)
+    n = 0
+    for key in sorted(foreign_phases - {"inBody"}):
+        cls = pm.phases[key]
+        for m in cls.methods.values():
+            for w in walk_no_nested(m.node):
+                if not isinstance(w, ast.While):
+                    continue
+                t = norm(w.test)
+                pops = any(isinstance(c, ast.Call) and norm(c.func).endswith("openElements.pop") for s in w.body for c in ast.walk(s))
+                if not pops or "openElements[-1].name" not in t:
+                    continue
+                # a loop that is followed by popping the element it stopped at ("pop until an X has been popped") corrects itself:
+                # the mode changes and the next clear-the-stack pops the rest.  Only "clear the stack back to a context" loops,
+                # after which something is *inserted* under the node they stopped at, are judged.
+                following = []
+                for blk in ast.walk(m.node):
+                    for fld in ("body", "orelse"):
+                        seq = getattr(blk, fld, None)
+                        if isinstance(seq, list) and w in seq:
+                            following = seq[seq.index(w) + 1:]
+                if any(isinstance(s, ast.Expr) and isinstance(s.value, ast.Call) and norm(s.value.func).endswith("openElements.pop") for s in following):
+                    continue
+                names = {c.value for c in ast.walk(w.test) if isinstance(c, ast.Constant) and isinstance(c.value, str)}
+                breakout = set(ctx.ce.try_eval(ast.parse("breakoutElements", mode="eval").body, ctx.repo.module(PARSER_REL)) or ())
+                if names and names <= breakout:
+                    continue            # a start tag with such a name leaves foreign content: no foreign element is called that
+                n += 1
+                r.check("C01.19", "openElements[-1].namespace" in t or "nameTuple" in t, "pop-until-html::%s::%s" % (m.qual, t[:50]),
+                        "%s:%d" % (PARSER_REL, w.lineno),
+                        "%s pops while `%s`: in the %s insertion mode the current node can be a foreign element with one of these names, at "
+                        "which the loop stops as if it were the HTML element" % (m.qual, t[:80], key), {"method": m.qual},
+                        detail={"method": m.qual, "test": t[:80]})
+    if n < 3:
+        raise AnalysisError("C01.19 matched %d clear-the-stack loops in table modes (expected >= 3)" % n)
+
+
 # ---------------------------------------------------------------------------- C01.10 quirks mode
 QUIRKS_EXACT = {"-//w3o//dtd w3 html strict 3.0//en//", "-/w3c/dtd html 4.0 transitional/en", "html"}
 QUIRKS_SYSTEM = "http://www.ibm.com/data/dtd/v11/ibmxhtml1-transitional.dtd"
@@ -1394,6 +1450,7 @@ def run(ctx):
     r.rule("C01.10", "quirks / limited-quirks decision equals the standard's for representative DOCTYPE tokens", floor=500)
     r.rule("C01.11", "a delegation whose result is discarded cannot lose a reprocess request", floor=50)
     r.rule("C01.13", "formatting-list scans stop at markers; stale formatting element removed from both lists; foreign breakout pops to an HTML element or integration point", floor=10)
+    r.rule("C01.19", "pop-until loops in modes with a possibly foreign current node test the namespace as well as the name", floor=3)
     r.rule("C01.18", "a token is reprocessed after an implied end tag exactly when that end tag was not ignored (scope test, not 'not a fragment')", floor=3)
     r.rule("C01.17", "white space is handed to the in-body rules in the modes where the standard says so", floor=5)
     r.rule("C01.16", "attribute-name adjustment rebuilds the mapping in source order", floor=1)
@@ -1418,6 +1475,7 @@ def run(ctx):
     attribute_order(ctx)
     space_delegation(ctx)
     reprocess_condition(ctx)
+    pop_until_html_element(ctx)
     from . import modes
     modes.run(ctx, "C01.12")
     standard_tables(ctx)
@@ -1431,6 +1489,7 @@ def thorough(ctx):
 def mutants():
     from ..selftest import TextMutant as T
     return [
+        T("row-context-name-only", "html5parser.py", "        while (self.tree.openElements[-1].namespace != self.tree.defaultNamespace or\n               self.tree.openElements[-1].name not in (\"tr\", \"html\")):", "        while self.tree.openElements[-1].name not in (\"tr\", \"html\"):", "C01.19"),
         T("intable-table-reprocess-unless-fragment", "html5parser.py", "        ignoreEndTag = not self.tree.elementInScope(\"table\", variant=\"table\")\n        self.parser.phase.processEndTag(impliedTagToken(\"table\"))\n        if not ignoreEndTag:\n            return token",
           "        self.parser.phase.processEndTag(impliedTagToken(\"table\"))\n        if not self.parser.innerHTML:\n            return token", "C01.18"),
         T("cell-space-generic", "html5parser.py", "    def processSpaceCharacters(self, token):\n        return self.parser.phases[\"inBody\"].processSpaceCharacters(token)\n\n    def startTagTableOther(self, token):", "    def startTagTableOther(self, token):", "C01.17"),
